@@ -41,7 +41,14 @@ type failPlan struct {
 	at    int // invocation number that fails (-1: none)
 	count int
 	group int // 0: plain error; n>0: an Errors group of n members
+	wrap  bool // the group is handed over wrapped in another error (%w style)
 }
+
+// wrapped is an error that wraps another one, as fmt.Errorf("...: %w", err) does.
+type wrapped struct{ inner error }
+
+func (e *wrapped) Error() string { return "wrapped: " + e.inner.Error() }
+func (e *wrapped) Unwrap() error { return e.inner }
 
 type injected struct{ msg string }
 
@@ -59,6 +66,9 @@ func (n *node) Resolve(field *ggql.Field, args map[string]interface{}) (interfac
 				var es ggql.Errors
 				for i := 0; i < n.fail.group; i++ {
 					es = append(es, &injected{"injected"})
+				}
+				if n.fail.wrap {
+					return nil, &wrapped{es}
 				}
 				return nil, es
 			}
